@@ -494,10 +494,10 @@ func main() {
 	r.Assume("eviction order (timestamps) is not modelled: after an add at capacity the reference adopts the observed content of that shard after checking it is a sub-set of the previous content plus the new header", "a bound on the number of headers per shard is not part of the property: recorded in maxima only", "race detector (-race) and porcupine v1.3.0 are trusted", "a runtime fatal error (concurrent map writes) kills the process: check.sh reports it as a violation")
 	r.MinShapes(40)
 
-	nSeq := r.N(600, 12000)
-	nHist := r.N(400, 6000)
-	nGentle := r.N(64, 640)
-	nStress := r.N(32, 400)
+	nSeq := r.N(600, 5000)
+	nHist := r.N(400, 3000)
+	nGentle := r.N(64, 300)
+	nStress := r.N(32, 200)
 	base := nSeq + nHist + nGentle
 	t0 := time.Now()
 	r.Parallel(base, func(c *vk.Case) {
